@@ -327,7 +327,7 @@ fn client_set_qname(it: &mut QuestionIterator, name: &[u8]) -> (r: Result<(), Er
 }
 
 // ---------------------------------------------------------------------------------------------------------------------------------
-// C11, the general statement: a walk over the answer section that deletes an ARBITRARY subset of the records it is given.
+// C11, the general statement: a walk over the answer or the authority section that deletes an ARBITRARY subset of the records it is given.
 // `decide` has no contract, so the verifier must treat its answers as arbitrary (any subset, any order of answers on revisits).
 #[verifier::external_body]
 fn decide(it: &ResponseIterator) -> (d: bool) { unimplemented!() }
@@ -337,46 +337,48 @@ pub open spec fn increasing(cur: Seq<int>, n: int) -> bool {
     (forall|j: int| 0 <= j < cur.len() ==> 0 <= #[trigger] cur[j] < n) && (forall|i: int, j: int| 0 <= i < j < cur.len() ==> cur[i] < cur[j])
 }
 // the records currently in the answer section of v are, in order, the records cur[0], cur[1], .. of the reference packet u0
-pub open spec fn holds_recs(v: Seq<u8>, u0: Seq<u8>, cur: Seq<int>) -> bool {
-    pf_packet(v) && sec_st(v, 1) == sec_st(u0, 1) && sec_n(v, 1) == cur.len()
-    && forall|j: int| 0 <= j < cur.len() ==> #[trigger] rec_bytes(v, sec_st(u0, 1), j) == rec_bytes(u0, sec_st(u0, 1), cur[j])
+pub open spec fn holds_recs(v: Seq<u8>, u0: Seq<u8>, cur: Seq<int>, si: int) -> bool {
+    pf_packet(v) && sec_st(v, si) == sec_st(u0, si) && sec_n(v, si) == cur.len()
+    && forall|j: int| 0 <= j < cur.len() ==> #[trigger] rec_bytes(v, sec_st(u0, si), j) == rec_bytes(u0, sec_st(u0, si), cur[j])
 }
-fn client_walk_delete_answers(pp: &mut ParsedPacket) -> (res: (Ghost<Seq<int>>, Ghost<Set<int>>))
+fn client_walk_delete(pp: &mut ParsedPacket, authority: bool) -> (res: (Ghost<Seq<int>>, Ghost<Set<int>>))
     requires old(pp).wf(), old(pp).bytes().len() <= 0xffff,
         (if old(pp).maybe_compressed { wf_packet(old(pp).bytes()) && uncompress_spec(old(pp).bytes()).len() <= 0xffff } else { pf_packet(old(pp).bytes()) }),
     ensures final(pp).wf(),
-        ({ let u0 = ref_bytes(*old(pp)); let n0 = sec_count(old(pp).bytes(), Section::Answer); let cur = res.0@; let yielded = res.1@;
+        ({ let u0 = ref_bytes(*old(pp)); let sec = if authority { Section::NameServers } else { Section::Answer }; let si = sec_idx(sec); let n0 = sec_count(old(pp).bytes(), sec); let cur = res.0@; let yielded = res.1@;
            // "afterwards the section holds exactly the survivors in their original order with a matching count"
-           increasing(cur, n0) && sec_count(final(pp).bytes(), Section::Answer) == cur.len()
-           && (cur.len() < n0 ==> holds_recs(final(pp).bytes(), u0, cur) && !final(pp).maybe_compressed)
+           increasing(cur, n0) && sec_count(final(pp).bytes(), sec) == cur.len()
+           && (cur.len() < n0 ==> holds_recs(final(pp).bytes(), u0, cur, si) && !final(pp).maybe_compressed)
            // "every surviving record is yielded at least once"
            && (forall|j: int| 0 <= j < cur.len() ==> yielded.contains(#[trigger] cur[j]))
            // "an emptied section reads as absent"
-           && (cur.len() == 0 ==> final(pp).offset_answers.is_none()) }),
+           && (cur.len() == 0 ==> (if authority { final(pp).offset_nameservers.is_none() } else { final(pp).offset_answers.is_none() })) }),
 {
     hide(pf_rr); hide(pf_rrs); hide(pf_rrs_end); hide(pf_n_opt); hide(pf_packet); hide(opt_at); hide(pcs_walk); hide(rec_ok); hide(opts); hide(wf_bytes); hide(recs_all); hide(sec_end); hide(n_opt);
     hide(walk); hide(skip_walk); hide(uncompress_spec); hide(bmap); hide(wf_packet); hide(rec_bytes);
-    let ghost pp0 = *pp; let ghost p0 = pp.bytes(); let ghost u0 = ref_bytes(*pp); let ghost n0 = sec_count(pp.bytes(), Section::Answer); let ghost st0 = sec_st(u0, 1);
+    let ghost pp0 = *pp; let ghost p0 = pp.bytes(); let ghost u0 = ref_bytes(*pp); let ghost sec = if authority { Section::NameServers } else { Section::Answer }; let ghost si = sec_idx(sec);
+    let ghost n0 = sec_count(pp.bytes(), sec); let ghost st0 = sec_st(u0, si);
     let ghost fin = *final(pp);
     let ghost mut cur: Seq<int> = Seq::new(n0 as nat, |j: int| j);
     let ghost mut yielded: Set<int> = Set::empty();
     proof {
         if pp0.maybe_compressed { theorem_c05(p0); lemma_un_pf_packet(p0); assert(wf_bytes(p0)) by { reveal(ParsedPacket::wf); }
-            assert(sec_n(u0, 1) == n0) by { reveal(pf_packet); reveal(wf_bytes); assert(u0.subrange(0, 12)[6] == u0[6] && u0.subrange(0, 12)[7] == u0[7] && p0.subrange(0, 12)[6] == p0[6] && p0.subrange(0, 12)[7] == p0[7]); } }
+            assert(sec_n(u0, si) == n0) by { reveal(pf_packet); reveal(wf_bytes); assert(u0.subrange(0, 12)[6] == u0[6] && u0.subrange(0, 12)[7] == u0[7] && p0.subrange(0, 12)[6] == p0[6] && p0.subrange(0, 12)[7] == p0[7]
+                && u0.subrange(0, 12)[8] == u0[8] && u0.subrange(0, 12)[9] == u0[9] && p0.subrange(0, 12)[8] == p0[8] && p0.subrange(0, 12)[9] == p0[9]); } }
     }
-    let mut it = pp.into_iter_answer();
+    let mut it = if authority { pp.into_iter_nameservers() } else { pp.into_iter_answer() };
     while let Some(item) = it
         invariant
-            increasing(cur, n0), n0 <= 0xffff, u0 == ref_bytes(pp0), p0 == pp0.bytes(), st0 == sec_st(u0, 1), pf_packet(u0), sec_n(u0, 1) == n0,
-            it matches Some(i) ==> mut_ready(&i) && i.rr_iterator.section is Answer && (i.pp().maybe_compressed ==> wf_packet(i.pk()))
+            increasing(cur, n0), n0 <= 0xffff, u0 == ref_bytes(pp0), p0 == pp0.bytes(), st0 == sec_st(u0, si), pf_packet(u0), sec_n(u0, si) == n0, sec == (if authority { Section::NameServers } else { Section::Answer }), si == sec_idx(sec),
+            it matches Some(i) ==> mut_ready(&i) && i.rr_iterator.section == sec && (i.pp().maybe_compressed ==> wf_packet(i.pk()))
                 && i.count() == cur.len() && i.tfin() == fin
-                && (if i.pp().maybe_compressed { i.pp() == pp0 && cur =~= Seq::new(n0 as nat, |j: int| j) } else { holds_recs(i.pk(), u0, cur) })
+                && (if i.pp().maybe_compressed { i.pp() == pp0 && cur =~= Seq::new(n0 as nat, |j: int| j) } else { holds_recs(i.pk(), u0, cur, si) })
                 && (forall|j: int| 0 <= j < i.visited() - 1 ==> yielded.contains(#[trigger] cur[j])),
-            it is None ==> fin.wf() && sec_count(fin.bytes(), Section::Answer) == cur.len()
-                && (cur.len() < n0 ==> holds_recs(fin.bytes(), u0, cur) && !fin.maybe_compressed)
+            it is None ==> fin.wf() && sec_count(fin.bytes(), sec) == cur.len()
+                && (cur.len() < n0 ==> holds_recs(fin.bytes(), u0, cur, si) && !fin.maybe_compressed)
                 && (forall|j: int| 0 <= j < cur.len() ==> yielded.contains(#[trigger] cur[j])),
-        ensures increasing(cur, n0), fin.wf(), sec_count(fin.bytes(), Section::Answer) == cur.len(),
-                cur.len() < n0 ==> holds_recs(fin.bytes(), u0, cur) && !fin.maybe_compressed,
+        ensures increasing(cur, n0), fin.wf(), sec_count(fin.bytes(), sec) == cur.len(),
+                cur.len() < n0 ==> holds_recs(fin.bytes(), u0, cur, si) && !fin.maybe_compressed,
                 forall|j: int| 0 <= j < cur.len() ==> yielded.contains(#[trigger] cur[j]),
         decreases cur.len(), (match it { Some(i) => i.count() - i.visited() + 1, None => 0int })
     {
@@ -388,8 +390,8 @@ fn client_walk_delete_answers(pp: &mut ParsedPacket) -> (res: (Ghost<Seq<int>>, 
             let _ = client_delete(&mut item);
             proof {
                 let mid = choose|mid: ParsedPacket| #[trigger] cut_post(&itb, mid, item.pk());
-                let u = mid.bytes(); let v = item.pk(); let n = sec_n(u, 1);
-                assert(st0 == sec_st(u, 1) && n == cur.len() && holds_recs(u, u0, cur)) by { reveal(rec_bytes); }
+                let u = mid.bytes(); let v = item.pk(); let n = sec_n(u, si);
+                assert(st0 == sec_st(u, si) && n == cur.len() && holds_recs(u, u0, cur, si)) by { reveal(rec_bytes); }
                 lemma_pf_packet_facts(u);
                 lemma_cut_recs(u, v, st0, n, k);
                 let c2 = cur.remove(k);
@@ -409,10 +411,10 @@ fn client_walk_delete_answers(pp: &mut ParsedPacket) -> (res: (Ghost<Seq<int>>, 
         }
         let ghost v = item.pk();
         proof {
-            // no OPT record in the answer section: next() never skips, and yields a record whenever one is left
+            // no OPT record in the answer / authority section: next() never skips, and yields a record whenever one is left
             assert(wf_bytes(v)) by { reveal(ParsedPacket::wf); }
             reveal(wf_bytes);
-            if item.visited() < item.count() { lemma_no_opt_at(v, sec_start(v, Section::Answer), sec_count(v, Section::Answer), item.visited()); }
+            if item.visited() < item.count() { lemma_no_opt_at(v, sec_start(v, sec), sec_count(v, sec), item.visited()); }
         }
         it = item.next();
     }
